@@ -150,6 +150,33 @@ def _run_tool(tool, lines, timeout=1800, env=None):
             ls = o.decode().split('\n')
             if ls and ls[-1] == '':
                 ls.pop()
+            if len(ls) != len(sh) and 'lzrs' in os.path.basename(tool) and pr.returncode not in (0, None) and len(ls) < len(sh):
+                # the implementation killed the whole process (abort on allocation failure, stack overflow, ...) on the case
+                # after the last printed result: record that and carry on with the remaining cases in a fresh process
+                rest = sh
+                ls_all = []
+                rc = pr.returncode
+                for attempt in range(50):
+                    # ls may end with a partial line when the process died while printing
+                    k = len(ls)
+                    ls_all += ls + ['abort why=process-killed-rc%s' % rc]
+                    rest = rest[k + 1:]
+                    if not rest:
+                        break
+                    p2 = os.path.join(tmpd, 'retry.cases')
+                    with open(p2, 'w') as f:
+                        for _, l in rest:
+                            f.write(l + '\n')
+                    pr2 = subprocess.Popen(['bash', '-c', 'ulimit -s unlimited 2>/dev/null; exec "%s" "%s"' % (tool, p2)], stdout=subprocess.PIPE, stderr=subprocess.DEVNULL, env=env)
+                    o2, _ = pr2.communicate(timeout=timeout)
+                    ls = o2.decode().split('\n')
+                    if ls and ls[-1] == '':
+                        ls.pop()
+                    rc = pr2.returncode
+                    if len(ls) == len(rest):
+                        ls_all += ls; rest = []
+                        break
+                ls = ls_all
             if len(ls) != len(sh):
                 raise InfraError('%s produced %d lines for %d cases (exit %s)' % (os.path.basename(tool), len(ls), len(sh), pr.returncode))
             for (i, _), l in zip(sh, ls):
